@@ -4,6 +4,7 @@ package alt
 
 import (
 	"fmt"
+	"math"
 	"reflect"
 	"time"
 	"unsafe"
@@ -13,6 +14,8 @@ import (
 
 // TimeTolerance is the tolerance when comparing time elements
 var TimeTolerance = time.Millisecond
+
+const maxInt64Float = 9223372036854775808.0 // 2^63, the first float beyond an int64
 
 // Path is a list of keys that can be either a string, int, or nil. Strings
 // are used for keys in a map, ints are for indexes to a slice/array, and nil
@@ -67,8 +70,7 @@ func Match(fingerprint, target any) bool {
 			return false
 		}
 	case int, int8, int16, int32, int64, uint, uint8, uint16, uint32, uint64:
-		i0, _ := asInt(fp)
-		if i1, ok := asInt(target); !ok || i0 != i1 {
+		if !sameInt(fp, target) {
 			return false
 		}
 	case float32, float64:
@@ -78,10 +80,8 @@ func Match(fingerprint, target any) bool {
 		}
 		// A large integer converted to a float is rounded so compare as
 		// integers as well when the other value is one.
-		if i1, ok := asInt(target); ok {
-			if i0, ok := asInt(fp); !ok || i0 != i1 {
-				return false
-			}
+		if _, ok := asInt(target); ok && !sameInt(fp, target) {
+			return false
 		}
 	case string:
 		if t1, ok := target.(string); !ok || fp != t1 {
@@ -143,20 +143,17 @@ func diff(v0, v1 any, one bool, ignores ...Path) (diffs []Path) {
 			diffs = append(diffs, Path{nil})
 		}
 	case int, int8, int16, int32, int64, uint, uint8, uint16, uint32, uint64:
-		i0, _ := asInt(v0)
-		if i1, ok := asInt(v1); !ok || i0 != i1 {
+		if !sameInt(v0, v1) {
 			diffs = append(diffs, Path{nil})
 		}
 	case float32, float64:
 		f0, _ := asFloat(v0)
 		if f1, ok := asFloat(v1); !ok || f0 != f1 {
 			diffs = append(diffs, Path{nil})
-		} else if i1, ok := asInt(v1); ok {
+		} else if _, ok := asInt(v1); ok && !sameInt(v0, v1) {
 			// A large integer converted to a float is rounded so compare as
 			// integers as well when the other value is one.
-			if i0, ok := asInt(v0); !ok || i0 != i1 {
-				diffs = append(diffs, Path{nil})
-			}
+			diffs = append(diffs, Path{nil})
 		}
 	case string:
 		if t1, ok := v1.(string); !ok || t0 != t1 {
@@ -282,6 +279,35 @@ func diff(v0, v1 any, one bool, ignores ...Path) (diffs []Path) {
 	return
 }
 
+// sameInt returns true if both values are whole numbers and are equal. An
+// unsigned value above math.MaxInt64 wraps around to a negative int64 so it
+// can only be equal to another value above math.MaxInt64.
+func sameInt(v0, v1 any) bool {
+	i0, ok0 := asInt(v0)
+	i1, ok1 := asInt(v1)
+
+	return ok0 && ok1 && i0 == i1 && overInt64(v0) == overInt64(v1)
+}
+
+func overInt64(v any) bool {
+	switch tv := v.(type) {
+	case uint:
+		return math.MaxInt64 < uint64(tv)
+	case uint64:
+		return math.MaxInt64 < tv
+	case float32:
+		return maxInt64Float <= float64(tv)
+	case float64:
+		return maxInt64Float <= tv
+	case gen.Float:
+		return maxInt64Float <= float64(tv)
+	}
+	return false
+}
+
+// asInt returns the value as an int64. Unsigned values and floats from 2^63
+// up to but not including 2^64 wrap around as they do when converting a uint64
+// to an int64.
 func asInt(v any) (i int64, ok bool) {
 	ok = true
 	switch tv := v.(type) {
@@ -306,26 +332,27 @@ func asInt(v any) (i int64, ok bool) {
 	case uint64:
 		i = int64(tv)
 	case float32:
-		i = int64(tv)
-		if float32(int64(tv)) != tv {
-			ok = false
-		}
+		i, ok = floatAsInt(float64(tv))
 	case float64:
-		i = int64(tv)
-		if float64(int64(tv)) != tv {
-			ok = false
-		}
+		i, ok = floatAsInt(tv)
 	case gen.Int:
 		i = int64(tv)
 	case gen.Float:
-		i = int64(tv)
-		if float64(int64(tv)) != float64(tv) {
-			ok = false
-		}
+		i, ok = floatAsInt(float64(tv))
 	default:
 		ok = false
 	}
 	return
+}
+
+func floatAsInt(f float64) (i int64, ok bool) {
+	if maxInt64Float <= f && f < 2.0*maxInt64Float {
+		u := uint64(f)
+		return int64(u), float64(u) == f
+	}
+	i = int64(f)
+
+	return i, float64(i) == f
 }
 
 func asFloat(v any) (f float64, ok bool) {
